@@ -43,8 +43,12 @@ func H_C14_csv_roundtrip() {
 	chunks := make([]*Chunk, n)
 	for i := range chunks {
 		// the chunk's own index and page span are not its position in the exported slice (filtered or batched collections)
+		idx := 10*(i+1) + vAnyIntIn(0, 1)
+		if i == 1 && vAnyIntIn(0, 1) == 1 {
+			idx = 0 // the first chunk of a second document in a combined collection: index 0 at position 1
+		}
 		chunks[i] = &Chunk{ID: "id" + string(rune('0'+i)), Text: "t,\"x\"\n" + string(rune('0'+i)),
-			Metadata: ChunkMetadata{ChunkIndex: 10*(i+1) + vAnyIntIn(0, 1), PageStart: 3 + i, PageEnd: 4 + 2*i, SectionTitle: "s\t1"}}
+			Metadata: ChunkMetadata{ChunkIndex: idx, PageStart: 3 + i, PageEnd: 4 + 2*i, SectionTitle: "s\t1"}}
 	}
 	if which == 0 {
 		chunks[0].Text = sym
